@@ -272,6 +272,25 @@ def plain_obs(obs):
 HARNESSES = {}
 
 
+def reset_memoised():
+    """every path starts like a fresh process as far as functools caches of the code under test go: a memo
+    filled on one path must not steer another (the engine re-executes the harness in one process); caches
+    still act *within* a path, which is where their effect on the property is checked"""
+    for name, mod in list(sys.modules.items()):
+        f = getattr(mod, "__file__", None)
+        if not f or not f.startswith(REPO + os.sep):
+            continue
+        for holder in [mod] + [v for v in list(vars(mod).values()) if isinstance(v, type) and getattr(v, "__module__", None) == name]:
+            for v in list(vars(holder).values()):
+                v = getattr(v, "__func__", v)
+                clear = getattr(v, "cache_clear", None)
+                if callable(clear):
+                    try:
+                        clear()
+                    except Exception:  # noqa
+                        pass
+
+
 EXTRA = []  # obligations contributed by the environment of a harness (e.g. the store backends' bystander store)
 
 
@@ -291,6 +310,7 @@ class Harness:
     def run_sym(self):
         x = X()
         del EXTRA[:]
+        reset_memoised()
         r = self.fn(x, **self.params)
         obligations, obs = r if isinstance(r, tuple) else (r, None)
         return x, list(obligations) + list(EXTRA), obs
@@ -298,6 +318,7 @@ class Harness:
     def run_native(self, values):
         x = X(values)
         del EXTRA[:]
+        reset_memoised()
         with native_mode():
             r = self.fn(x, **self.params)
         obligations, obs = r if isinstance(r, tuple) else (r, None)
